@@ -1,2 +1,5 @@
 import PyhfModel.Basic
 import PyhfModel.Interp
+import PyhfModel.Spec
+import PyhfModel.Params
+import PyhfModel.Tensor
